@@ -49,7 +49,7 @@ def run_unit(u, tier):
     if u.poly_texts:
         passes.append('B')
     out = {'unit': u.name, 'model': u.model, 'path': path, 'passes': {}, 'failures': [], 'infra': [],
-           'functions': u.functions, 'trusted_prelude_items': n_pre, 'n_lemmas': len(u.lemma_texts), 'n_poly': len(u.poly_texts)}
+           'functions': u.functions, 'assumed': u.assumed, 'trusted_prelude_items': n_pre, 'n_lemmas': len(u.lemma_texts), 'n_poly': len(u.poly_texts)}
     with cf.ThreadPoolExecutor(max_workers=2) as ex:
         futs = {w: ex.submit(driver.run_verus, path, w, 8, getattr(u, 'verus_extra', {}).get(w, ())) for w in passes}
         for w, fu in futs.items():
@@ -164,6 +164,7 @@ def finish(prop, tier, seed, result, evid_path):
             'trusted_base': [TRUST[a] for a in meta.get('trust', ['A1', 'A2', 'A6'])] + meta.get('trust_extra', []),
             'samples': samples,
             'functions_under_contract': nfun,
+            'contracts_assumed_from_other_units': sorted(set(a['anchor'] for r in result['units'] for a in r.get('assumed', []))),
             'functions': [dict(anchor=fn['anchor'], origin=fn['origin'], body=fn['body_sha256_16'], unit=r['unit'], model=r['model'])
                           for r in result['units'] for fn in r['functions']],
             'per_unit': [{k: r[k] for k in ('unit', 'model', 'passes', 'canaries', 'canaries_failed_as_expected', 'n_lemmas', 'n_poly', 'trusted_prelude_items')} for r in result['units']],
